@@ -147,7 +147,7 @@ func freeRun(tw *traceWriter, run int) {
 				emit(map[string]interface{}{"k": "close_call"})
 				err := cli.Close()
 				alive := libGoroutinesOf(cli)
-				for k := 0; k < 50 && len(alive) > 0; k++ {
+				for k := 0; k < 500 && len(alive) > 0; k++ {
 					time.Sleep(time.Millisecond)
 					alive = libGoroutinesOf(cli)
 				}
@@ -206,7 +206,7 @@ func freeRun(tw *traceWriter, run int) {
 		emit(map[string]interface{}{"k": "close_call"})
 		err := cli.Close()
 		alive := libGoroutinesOf(cli)
-		for k := 0; k < 50 && len(alive) > 0; k++ {
+		for k := 0; k < 500 && len(alive) > 0; k++ {
 			time.Sleep(time.Millisecond)
 			alive = libGoroutinesOf(cli)
 		}
